@@ -194,6 +194,29 @@ def run(ctx):
             if re.search(r"RwLock(::)?<T>::(try_read|try_write|is_poisoned|clear_poison)$|Mutex(::)?<T>::try_lock$", nm):
                 res.fail(Finding("R-LOCK.5", "R-LOCK.5/%s/%s" % (f.path, nm.split("::")[-1]),
                                  "%s probes the shared lock with %s: its answer depends on whether another thread holds the lock at that instant, so whatever is decided from it (an assertion, an error, a different path) differs between schedules" % (f.path.split("::")[-1], nm.split("::")[-1]), f, c.term["span"]))
+    # R-LOCK.6: one operation, one critical section per mutation: the write lock is never taken inside a loop.  A
+    # loop that takes and releases the write lock per iteration publishes the state between two iterations - a
+    # reader then sees a stream (length, chain) that is neither the state before nor after the whole operation.
+    from cfg import natural_loops
+    nloops = 0
+    # only operations through stream handles run beside readers: CompoundFile's own mutating methods take
+    # `&mut self`, which excludes every `&CompoundFile` reader for the whole call
+    from cg import peel
+    roots = [f for f in ctx.fx.fns.values() if peel(f.d.get("impl_self", {})).get("adt") == "internal::stream::Stream" and f.kind != "closure"]
+    for f in cg.reachable(roots).values():
+        loops = natural_loops(f)
+        if not loops:
+            continue
+        for (h, body, _back) in loops:
+            nloops += 1
+            for c in cg.calls[f.path]:
+                if c.bb not in body or f.blocks[c.bb]["cleanup"]:
+                    continue
+                eff = cg.call_effects(c)
+                if "lock_write" in eff:
+                    res.fail(Finding("R-LOCK.6", "R-LOCK.6/%s/write-lock-in-loop/%s" % (f.path, c.name), "the write lock is acquired inside a loop (%s, line %d; loop head line %d): each iteration is its own critical section, so a concurrent reader can observe the state between two iterations of what the caller sees as one operation" % (c.name.split("::")[-1], c.line, f.blocks[h]["term"]["span"]["line"]), f, c.term["span"]))
+                    break
+    res.floor("loops examined for write-lock acquisitions", nloops, ctx.table("floors").get("lock_loops", 0))
     return res
 
 
